@@ -32,7 +32,7 @@ import (
 
 var unquotedAttr = regexp.MustCompile(`(?i)\s([a-z][a-z0-9-]*)=([a-z0-9_.-]+)(?:\s|/?>|$)`)
 
-var htmlPieces = []string{`<p id="a" title=b lang=en>q</p>`, `<i class=k>i</i>`, `<p>a</p>`, `<ul><li>x</li><li>y</li></ul>`, `<!-- c -->`, `<!--[if IE]><p>i</p><![endif]-->`, `<!--#include virtual="f" -->`, `<input type="text" value="v" disabled="disabled">`, `<a href="u" class='c d' title=t>t</a>`, ` `, `text `, ` more`,
+var htmlPieces = []string{`<p id="a" title=b lang=en>q</p>`, `<i class=k>i</i>`, `<input type="radio" value="on"><input type="text" value="">`, `<p>a</p>`, `<ul><li>x</li><li>y</li></ul>`, `<!-- c -->`, `<!--[if IE]><p>i</p><![endif]-->`, `<!--#include virtual="f" -->`, `<input type="text" value="v" disabled="disabled">`, `<a href="u" class='c d' title=t>t</a>`, ` `, `text `, ` more`,
 	`<table><tr><td>1</td><td>2</td></tr></table>`, `<script type="text/javascript">x</script>`, `<b> x </b>`, `<form method="get" action="">f</form>`, `<span> s </span> <em>e</em>`, `<style type="text/css">s{}</style>`, `<td colspan="1">c</td>`, `<option selected="selected">o</option>`, `<dl><dt>t</dt><dd>d</dd></dl>`, "\n",
 	// every element whose end tag is omissible appears at least once (KeepEndTags)
 	`<select><optgroup label="l"><option>1</option></optgroup><optgroup label="m"><option>2</option></optgroup></select>`,
